@@ -107,6 +107,18 @@ template <class T, size_t N, size_t M> static void run_config(Rng& g) {
   }
 }
 
+// the bit-reversal permutation of permut.hpp for degree N (y[i] = x[P(i)] with x = identity gives P itself);
+// every degree up to the largest the limb tables allow (2^20), although the transforms above stop at 32768
+template <size_t N> static void permtab() {
+  constexpr size_t k = nfl::static_log2<N>::value;
+  std::vector<uint32_t> x(N), y(N);
+  for (size_t i = 0; i < N; i++) x[i] = (uint32_t)i;
+  nfl::permut<N>::compute(y.data(), x.data());
+  printf("permtab %zu =>", k);
+  for (size_t i = 0; i < N; i++) printf(" %u", y[i]);
+  printf("\n");
+}
+
 #ifndef MIN16
 #define MIN16 1
 #endif
@@ -136,6 +148,9 @@ int main() {
     }
     return 0;
   }
+  permtab<2>(); permtab<4>(); permtab<8>(); permtab<16>(); permtab<32>(); permtab<64>(); permtab<128>(); permtab<256>();
+  permtab<512>(); permtab<1024>(); permtab<2048>(); permtab<4096>(); permtab<8192>(); permtab<16384>(); permtab<32768>();
+  permtab<65536>(); permtab<131072>(); permtab<262144>(); permtab<524288>(); permtab<1048576>();
   // every power-of-two degree the build accepts; number of moduli varied
   maybe<uint16_t, 1, 1, MIN16>(g);  maybe<uint16_t, 2, 2, MIN16>(g);  maybe<uint16_t, 4, 1, MIN16>(g);
   maybe<uint16_t, 8, 2, MIN16>(g);  maybe<uint16_t, 16, 1, MIN16>(g); maybe<uint16_t, 32, 2, MIN16>(g);
